@@ -19,17 +19,24 @@
 (***************************************************************************)
 EXTENDS ChessGame
 
-CONSTANT Mark
+CONSTANTS Mark,     \* manoeuvre: the half-move clock from which an irreversible move is due
+          Policy    \* "manoeuvre" | "trade"
 
 Reversible(p, m) == TypeOf(p.board[From(m)]) # PAWN /\ p.board[To(m)] = Empty
 
 Kth(L, k) == CHOOSE x \in L : Cardinality({y \in L : y < x}) = k % Cardinality(L)
 
+\* "trade": whoever can capture captures (three times out of four) - from roots with MORE material than a game starts with
+\* (extra queens, an early capturing promotion) the walk trades down to bare kings and a few pieces, the last captures
+\* often made by a king: positions whose history has seen more material than their board shows (properties C10 / C04:
+\* whatever the engine keeps incrementally must say what the board says)
 LongPick(p, L, r) ==
     LET rev == {m \in L : Reversible(p, m)}
         irr == L \ rev
         due == p.hmc >= Mark + (r % 30)
-    IN IF due /\ irr # {} THEN Kth(irr, r)
+        caps == {m \in L : p.board[To(m)] # Empty}
+    IN IF Policy = "trade" THEN (IF caps # {} /\ r % 4 # 0 THEN Kth(caps, r \div 4) ELSE Kth(L, r \div 4))
+       ELSE IF due /\ irr # {} THEN Kth(irr, r)
        ELSE IF rev # {} THEN Kth(rev, r)
        ELSE Kth(L, r)
 
@@ -48,6 +55,6 @@ LongMove ==
 
 LSpec == Init /\ [][LongMove]_vars
 
-\* what the family is for: the games stay alive
-NotFiftyMoveDrawn == pos.hmc < 100 \/ legal = {}
+\* what the manoeuvring family is for: the games stay alive
+NotFiftyMoveDrawn == Policy # "manoeuvre" \/ pos.hmc < 100 \/ legal = {}
 =============================================================================
